@@ -178,7 +178,7 @@ static Plan gen_c10(uint64_t seed, const std::string &) {
     Plan p; p.property = "C10"; p.seed = seed; p.world = gen_world(r);
     World &w = p.world; w.socks["/run/snoopy-0.sock"] = SockNode(); w.has_ctty = true;
     static const char *outs[] = {"file:/log/c10.log", "devlog", "socket:/run/snoopy-0.sock", "stderr", "stdout", "devtty", "devnull"};
-    CfgSpec s; s.has_format = true; s.format = "%{tid_kernel} %{filename} %{cmdline} %{username}"; s.has_output = true; s.output = outs[base % 7];
+    CfgSpec s; s.has_format = true; s.format = "T%{snoopy_threads}T %{filename} %{cmdline} %{username}"; s.has_output = true; s.output = outs[base % 7];
     p.ops.push_back(op_setconfig(s.render(r, true)));
     Op f; f.op = "ForkExec";
     f.ex.path = "/bin/parentB"; f.ex.argv = {"parentB", "x"}; f.ex.success = false; f.ex.err = 2; f.ex.ret = -1;
@@ -190,7 +190,15 @@ static Plan gen_c10(uint64_t seed, const std::string &) {
     p.extra.set("census_points", N); p.extra.set("enumeration_complete", N <= C10_SLOTS - 1);
     if (slot == 0) { f.fork_point = 1 << 30; p.extra.set("mode", "census"); }
     else if (slot <= N) { f.fork_point = slot; p.extra.set("mode", "point"); }
-    else { Rng pr(seed * 31 + 7); f.fork_point = 1 + (int)pr.below((uint64_t)(N > 0 ? N : 1)); f.grandchild = true; p.extra.set("mode", "grandchild"); }
+    else {
+        Rng pr(seed * 31 + 7); f.fork_point = 1 + (int)pr.below((uint64_t)(N > 0 ? N : 1));
+        if (slot % 2) { f.grandchild = true; p.extra.set("mode", "grandchild"); }
+        else {   // one or two more parent threads parked somewhere inside their own wrapped call at the instant of the fork
+            int nx = 1 + (int)pr.below(2);
+            for (int i = 0; i < nx; i++) { ExecOp x = f.ex; x.path = "/bin/parentC" + std::to_string(i); x.argv = {"parentC", std::to_string(i)}; f.extra_calls.push_back(x); f.extra_points.push_back(1 + (int)pr.below((uint64_t)(N > 0 ? N : 1))); }
+            f.grandchild = pr.chance(1, 3); p.extra.set("mode", "threads" + std::to_string(nx + 1));
+        }
+    }
     p.ops.push_back(f);
     return p;
 }
@@ -200,6 +208,11 @@ static Verdict oracle_c10(const Plan &p, const RunResult &r) {
     auto child_ok = [&](const J &rep, const std::string &who) -> Verdict {
         if (!rep.getb("completed")) return bad("child-" + rep.gets("abort_class", "stuck"), who + " cannot finish its exec call: " + rep.gets("abort_detail"));
         if (rep.at("obs").geti("real_calls") != 1) return bad("child-exec-count", who + " reached the real exec " + std::to_string(rep.at("obs").geti("real_calls")) + " times");
+        // its record: exactly one, about its own call, and the library sees exactly one thread there (nothing inherited)
+        std::string all; int n = 0; for (auto &d : rep.at("deliveries").a) if (!d.gets("bytes").empty()) { all += d.gets("bytes"); n++; }
+        if (n != 1) return bad("child-record-count", who + " produced " + std::to_string(n) + " records");
+        if (all.find("/bin/child") == std::string::npos) return bad("child-record-content", who + " logged " + show(all));
+        if (all.find("T1T ") == std::string::npos) return bad("child-inherited-threads", who + " still sees per-thread state of parent threads that do not exist in it: " + show(all, 60));
         return ok();
     };
     Verdict v = child_ok(c, "forked child");
@@ -221,6 +234,7 @@ static void describe_c10(const Plan &p, const RunResult &r, J &line) {
     line.set("nontrivial", f.fork_point <= p.extra.geti("census_points"));
     if (p.extra.gets("mode") == "census") { line.set("p_census", true); line.set("census_points", p.extra.geti("census_points")); }
     if (p.extra.gets("mode") == "grandchild") line.set("p_grandchild", true);
+    if (p.extra.gets("mode").compare(0, 7, "threads") == 0) line.set("p_three_or_more_parent_threads", true);
     if (r.counters.count("atfork-registered")) line.set("p_atfork_handlers", true);
     if (r.blocked_on_mutex) line.set("p_forker_waited_for_mutex", true);
 }
